@@ -136,19 +136,25 @@ theorem C21_one_sided_reset_livelock :
   MISSING for the full statement: progress for n peers.  The lemma that is needed (and suffices,
   by the argument below) is the pair lemma under the WEAK invariants:
     (PairW)  for a pair satisfying `SessW` + `Inv2`-like facts (sent ⊆ arrived-or-in-flight, stuck
-             queue), `fp = fun _ => false`: within 4 pair rounds without interference either a
+             queue, `shared_heads ⊆ applied_self`), any `fp`: within 4 pair rounds without interference either a
              change arrives (applied or queued) at one of the two peers, or the pair is quiescent.
   It is the C20 phase argument (E, G, P, Q of `Proofs/SyncProgressPhases.lean`) redone without
   `queue ⊆ applied_other` and `shared_heads ⊆ applied_other` and WITH the reset-message branch of
   `generate_sync_message`.  Given (PairW): in a network round in which no document receives a new
   change every pair runs undisturbed, so after at most 4 such rounds every link is quiet; each
   other round lets a change arrive somewhere; hence at most 4·(Σ_p |known \ arrived_p| + 1) rounds.
-  (PairW) cannot hold for every `fp`: a reset message carries the EMPTY Bloom filter, on which a
-  real filter has no false positives but the forced hook does; with every query forced positive
-  the receiver of a reset message offers nothing and the two peers exchange reset / non-reset
-  messages forever — an artefact of the hook, see the report.)
+  (PairW) is plausible for EVERY `fp` since the hook mirrors a real filter (an empty filter answers
+  `false` before `fp` is consulted, `Model.Sync.bloomHas`): the only branch of the pair exchange in
+  which `need` is not served is the reset branch (a peer whose `their_have` names a `last_sync` it
+  does not have answers with the reset message and ignores `their_need`); the reset message carries
+  the EMPTY filter, so its receiver offers every change not in `sent_hashes` — i.e. (FIFO links lose
+  nothing) everything that has not arrived at the resetting peer, whatever `fp` says — and that
+  includes the unknown `last_sync` hash or, if that one is queued there, one of its missing
+  ancestors: a change arrives.  All other branches are `fp`-independent through `need`, as in C20.
+  (With the earlier hook, which answered "present" even on the empty filter, this failed: see
+  `C21_reset_recovers_under_forced_fp` for the network that used to livelock.)
   Evidence in its place (validation, not proof): 8 500 random networks of 3–4 peers in the model
-  (drops, fresh/persisted reconnects, fp ∈ {0, 10, 50, 100 %}) all went quiet and converged, in at
+  (drops, fresh/persisted reconnects, fp ∈ {0, 10, 50, 100 %}; re-run with the empty-filter rule) all went quiet and converged, in at
   most `Σ_p |U \ arrived_p| + 4` rounds; the `sync` engine runs the same on the real code.
 -/
 
@@ -243,7 +249,7 @@ example : NetReachable Example3.final ∧ NetQuiescent Example3.final ∧
       (by decide) (by decide +kernel)
   exact ⟨hr, hq, by decide +kernel, (C21_component_converged_partial hr hq hc).1, by decide +kernel⟩
 
-/-! ### why the n-peer progress statement cannot be "for every `fp`" -/
+/-! ### the reset message under forced false positives -/
 
 namespace ExampleReset
 
@@ -277,19 +283,22 @@ def stuck : Net :=
 
 end ExampleReset
 
-/-- With every Bloom query forced positive, A answers B's `have` with the reset message ("their
-    last_sync is unknown to us"), the reset message carries the EMPTY Bloom filter, the hook makes B
-    believe that A has everything, B offers nothing, repeats its `have`, A resets again: 40
-    round-robin rounds later the network is still not quiet and A still lacks x.  Without the hook
-    (same network, `fpSet := []`) it is quiet after 3 rounds.  A real empty filter has no false
-    positives, so this is an artefact of the hook (`FORCE_FP` is consulted before the filter) — but
-    it means that n-peer progress can only be stated for oracles that are false on the empty
-    filter.  The same session on the real code (with the hook) behaves identically. -/
-theorem C21_forced_fp_defeats_reset :
+/-- The reset path works under total forced false positives: A answers B's `have` (whose
+    `last_sync` names x, which A does not have) with the reset message; the reset message carries
+    the EMPTY Bloom filter, on which no query is positive — forced or not — so B offers everything it
+    has not sent, A receives x, and two round-robin rounds later every link is quiet (the engine's
+    count 3 includes the quiet round) and all three peers hold all 13 changes.  (With the earlier
+    hook, consulted before the emptiness test, this network was still not quiet after 40 rounds —
+    an artefact: a real empty filter has no false positives.) -/
+theorem C21_reset_recovers_under_forced_fp :
     resetCond (ExampleReset.stuck.docs 0) (ExampleReset.stuck.st 0 1) = true ∧
-    (ExampleReset.stuck.quiesce 40 0 []).2.2.2 = false ∧
-    ((ExampleReset.stuck.quiesce 40 0 []).1.docs 0).hashes.length = 12 ∧
-    ({ ExampleReset.stuck with fpSet := [] }.quiesce 40 0 []).2.2 = (3, true) := by
-  refine ⟨by decide +kernel, by decide +kernel, by decide +kernel, by decide +kernel⟩
+    (ExampleReset.stuck.quiesce 6 0 []).2.2 = (3, true) ∧
+    NetQuiescent (ExampleReset.stuck.quiesce 6 0 []).1 ∧
+    ((ExampleReset.stuck.quiesce 6 0 []).1.docs 0).hashes.length = 13 ∧
+    ((ExampleReset.stuck.quiesce 6 0 []).1.docs 1).hashes.length = 13 ∧
+    ((ExampleReset.stuck.quiesce 6 0 []).1.docs 0).heads =
+      ((ExampleReset.stuck.quiesce 6 0 []).1.docs 2).heads := by
+  refine ⟨by decide +kernel, by decide +kernel, by decide +kernel, by decide +kernel,
+    by decide +kernel, by decide +kernel⟩
 
 end AmVerif.Props.C21Progress
